@@ -767,7 +767,11 @@ def check_newton(case, rec):
         sols.append((u1, np.asarray(simu._Get_v_n(pt), float), np.asarray(simu._Get_a_n(pt), float)))
     nit = int(newton._Simu__newtonIter)
     # iteration 1 lands on the solution of the linear problem, iteration 2 only confirms the zero residual
-    rec.require(nit <= 2, "newton_one_iteration",
+    # ... when the round-off of the first solve (eps x conditioning of the step matrix) is below the relative stopping rule 1e-10
+    # of the loop; on a worse-conditioned matrix (moduli 1e9 next to an O(1) mass term on a free body: cond 1e8, relative residual
+    # 6e-8 after the first solve, thorough tier seed 5) the loop refines until its increment rule stops it: at most 4 iterations
+    nit_max = 2 if 100.0 * np.finfo(float).eps * cond < 1e-10 else 4
+    rec.require(nit <= nit_max, "newton_one_iteration",
                 f"{algo} {p['kind']}: Newton form of the linear problem needed {nit} iterations (tangent A and residual built "
                 f"from _Solver_Evaluate_u_v_a_for_time_scheme are not consistent)", **sig)
     scale = _mx(sols[0][0], old[0], prm[0] * old[1], prm[0] ** 2 * old[2]) or 1.0
